@@ -36,7 +36,7 @@ META = dict(
     outside=["file encodings / BOM detection / codecs (C level I/O: no solver variable reaches them)",
              "the csv module's tokenisation"],
     required_covers=["a bar was built from trades", "an invalid bar was refused", "a zero-volume row was skipped",
-                     "a trade sat in the last millisecond of its window"],
+                     "a trade sat in the last millisecond of its window", "an out-of-order trade arrived"],
 )
 
 
@@ -163,7 +163,7 @@ STARTS = {
 }
 
 
-def trades_to_bars(ctx, ntrades=2, nwindows=3, duration=60, start="mid", skip_first=False):
+def trades_to_bars(ctx, ntrades=2, nwindows=3, duration=60, start="mid", skip_first=False, late=False):
     START = STARTS[start]
     D = duration
     src = bar.RealTimeTradesToBar(P, D, skip_first_bar=skip_first, flush_delay=0.5)
@@ -176,12 +176,48 @@ def trades_to_bars(ctx, ntrades=2, nwindows=3, duration=60, start="mid", skip_fi
         ctx.assume(a <= b)
     prices = [ctx.dec("price%d" % i, 2, lo=1, hi=10 ** 9) for i in range(ntrades)]
     amts = [ctx.dec("amount%d" % i, 8, lo=1, hi=10 ** 12) for i in range(ntrades)]
+    arrival = list(whens)
     pending = list(range(ntrades))
+    pending_order = list(pending)
+    in_order = [True] * ntrades
+    if late:
+        # one more trade that arrives right after trade j, whatever its own timestamp says: if that timestamp is older
+        # than trade j's it is out of order and must be reported and left out of every bar
+        j = ctx.choice("late_trade_arrives_after", ntrades)
+        wx = ctx.dt("late_trade_time", START, horizon - datetime.timedelta(microseconds=1))
+        whens.append(wx)
+        prices.append(ctx.dec("late_price", 2, lo=1, hi=10 ** 9))
+        amts.append(ctx.dec("late_amount", 8, lo=1, hi=10 ** 12))
+        # it arrives at a solver-chosen instant between trade j and the next regular trade (possibly after windows
+        # have been flushed in between)
+        ax = ctx.dt("late_trade_arrival", START, horizon - datetime.timedelta(microseconds=1))
+        ctx.assume(ax >= whens[j])
+        if j + 1 < ntrades:
+            ctx.assume(ax <= whens[j + 1])
+        arrival.append(ax)
+        pending.insert(j + 1, ntrades)
+        pending_order = list(pending)
+        # in order = not older than what arrived before it and not inside a window that was flushed before it arrived
+        # (a window [b, b + D) is flushed flush_delay = 0.5 s after its last microsecond)
+        ok = bool(wx >= whens[j])
+        if ok and j + 1 < ntrades:
+            if not bool(wx <= whens[j + 1]):   # otherwise the next regular trade would be the out-of-order one
+                raise Abort()
+        if ok:
+            for k in range(nwindows):
+                b0 = first_begin + k * datetime.timedelta(seconds=D)
+                flushed_at = b0 + datetime.timedelta(seconds=D, microseconds=-1) + datetime.timedelta(seconds=0.5)
+                if bool(wx < b0 + datetime.timedelta(seconds=D)) and bool(ax > flushed_at):   # (ties: delivered before the flush)
+                    ok = False          # its window is gone: late, reported, left out
+                    break
+        in_order.append(ok)
+        if not ok:
+            ctx.cover("an out-of-order trade arrived")
     clock = [START]
 
     def deliver_until(t):
-        # zero-latency feed: every trade stamped <= t has arrived (in order) by the time the clock reads t
-        while pending and bool(whens[pending[0]] <= t):
+        # zero-latency feed: every trade has arrived (in arrival order) by the time the clock reads its arrival time
+        while pending and bool(arrival[pending[0]] <= t):
             i = pending.pop(0)
             src.push_trade(whens[i], prices[i], amts[i])
     flushes = [0]
@@ -219,6 +255,8 @@ def trades_to_bars(ctx, ntrades=2, nwindows=3, duration=60, start="mid", skip_fi
     sec = datetime.timedelta(seconds=D)
     members = {k: [] for k in range(nwindows)}
     for i, w in enumerate(whens):
+        if not in_order[i]:
+            continue
         for k in range(nwindows):
             b0 = first_begin + k * sec
             if bool(And(w >= b0, w < b0 + sec)):
@@ -226,7 +264,12 @@ def trades_to_bars(ctx, ntrades=2, nwindows=3, duration=60, start="mid", skip_fi
                 if bool(w >= b0 + sec - datetime.timedelta(milliseconds=1)):
                     ctx.cover("a trade sat in the last millisecond of its window")
                 break
-    ctx.prove(not errors, "C19 no in-order trade is reported as out of order", info=len(errors))
+    n_ooo = sum(1 for x in in_order if not x)
+    ctx.prove(len(errors) == n_ooo, "C19 exactly the out-of-order trades are reported (no in-order trade is)",
+              info=(len(errors), n_ooo))
+    # members must be listed in arrival order for first/last
+    for k in members:
+        members[k].sort(key=lambda i: (pending_order.index(i)))
     expected = []
     for k in range(nwindows):
         if not members[k] or (skip_first and k == 0):
@@ -258,6 +301,8 @@ def trades_to_bars(ctx, ntrades=2, nwindows=3, duration=60, start="mid", skip_fi
                   "C19 every Bar satisfies low <= open, close <= high")
     for a, b in zip(bars, bars[1:]):
         ctx.prove(a.when < b.when, "C19 bars are emitted in time order")
+    if not late:
+        ctx.cover("an out-of-order trade arrived")
     ctx.cover("an invalid bar was refused")
     ctx.cover("a zero-volume row was skipped")
     if not any(members[k] for k in members):
@@ -284,4 +329,8 @@ def jobs(tier):
                               dict(ntrades=nt, nwindows=nw, duration=dur, start=start, skip_first=skip),
                               validate_every=20, sample_every=50, split=100 if tier != "quick" else 0,
                               max_paths=500000))
+    for start in ("aligned", "mid"):
+        js.append(Job("trades with a late trade D=60 start=%s" % start, "trades_to_bars",
+                      dict(ntrades=nt - 1, nwindows=nw, duration=60, start=start, late=True), validate_every=20,
+                      sample_every=50, split=100, max_paths=500000))
     return js
